@@ -5,10 +5,14 @@ A leg is one build configuration of the harness running one part of a driver in 
 """
 
 
-def leg(cfg, shards=1, part=None, scale=None, timeout=None, weight=1, env=None, of=None, budget=None, stage=0, dir=False, python=None, pyargs=None, driver=None):
+def leg(cfg, shards=1, part=None, scale=None, timeout=None, weight=1, env=None, of=None, budget=None, stage=0, dir=False, python=None, pyargs=None, driver=None, runs=None, maxlen=None):
     d = {"cfg": cfg, "shards": shards, "weight": weight, "stage": stage}
     if driver:
         d["driver"] = driver  # replay another property's workload in this configuration (process-level verdicts only)
+    if runs:
+        d["runs"] = runs      # coverage-guided legs (cfg fuzz / fuzz-dbg): number of inputs libFuzzer executes per shard
+    if maxlen:
+        d["maxlen"] = maxlen  # ... and the longest input (bytes) it may grow
     if dir:
         d["dir"] = True
     if python:
@@ -54,11 +58,11 @@ PLANS["C01"] = {
              "distinct = digest of (part, length, pattern or position list); non-trivial = has both a set and an unset bit, or length <= 1"),
     "legs": {
         "quick": [leg("rel", 16, "small"), leg("dbg", 16, "small", scale=1), leg("rel", 8, "boundary"), leg("dbg", 8, "boundary"),
-                  leg("rel-nobmi", 8, "boundary"), leg("dbg-nobmi", 8, "boundary"), leg("rel", 4, "regime", weight=5), leg("rel-nobmi", 4, "regime", weight=5),
-                  leg("dbg", 4, "regime", weight=5), leg("miri", 4, "small", of=4096, budget=2500), leg("miri-native", 2, "small", of=4096, budget=2500)],
+                  leg("rel-nobmi", 8, "boundary"), leg("dbg-nobmi", 8, "boundary"), leg("rel", 6, "regime", weight=5), leg("rel-nobmi", 6, "regime", weight=5),
+                  leg("dbg", 6, "regime", weight=5), leg("miri", 4, "small", of=4096, budget=2500), leg("miri-native", 2, "small", of=4096, budget=2500)],
         "thorough": [leg("rel", 16, "small"), leg("dbg", 16, "small"), leg("rel-nobmi", 16, "small"), leg("rel", 16, "boundary"), leg("dbg", 16, "boundary"),
-                     leg("rel-nobmi", 16, "boundary"), leg("dbg-nobmi", 16, "boundary"), leg("dbg-nobmi", 10, "regime", weight=5), leg("rel", 10, "regime", weight=5), leg("rel-nobmi", 10, "regime", weight=5),
-                     leg("dbg", 10, "regime", weight=5), leg("miri", 10, "small", of=2048, budget=20000), leg("miri-native", 6, "small", of=2048, budget=20000)],
+                     leg("rel-nobmi", 16, "boundary"), leg("dbg-nobmi", 16, "boundary"), leg("dbg-nobmi", 16, "regime", weight=5), leg("rel", 16, "regime", weight=5), leg("rel-nobmi", 16, "regime", weight=5),
+                     leg("dbg", 16, "regime", weight=5), leg("miri", 10, "small", of=2048, budget=20000), leg("miri-native", 6, "small", of=2048, budget=20000)],
     },
     "require": {
         "quick": [("counter", "identity.sel_build_long", 1), ("counter", "identity.sel_build_short", 1),
@@ -68,6 +72,7 @@ PLANS["C01"] = {
                   ("counter", "identity.sel_q_superblock_start", 1),
                   ("counter", "complement.sel_q_long", 1), ("counter", "complement.sel_q_long_ptr_nonzero", 1),
                   ("counter", "complement.sel_q_short_scan", 1), ("counter", "complement.complement_last_word", 1),
+                  ("counter", "regime.model_wide_short_superblocks_ones", 1), ("counter", "regime.model_wide_short_superblocks_zeros", 1),
                   ("build", "rel-nobmi", "bmi2", False), ("build", "rel", "bmi2", True), ("build", "dbg", "overflow_checks", True)],
     },
     "level_text": ("exploration: the real BitVector is queried on exhaustive small scopes, boundary lengths and regime-directed vectors while a reference model checks "
@@ -108,8 +113,10 @@ PLANS["C05"] = {
              "values wider than the width), plus every history of <= L steps over fixed 9-/8-operation alphabets; after EVERY step: content vs model, tail invariant via AsRef<[u64]>, "
              "==/serialized bytes/count_ones vs a freshly built vector; distinct = digest of the operation-kind sequence (and width); non-trivial = at least 2 steps"),
     "legs": {
-        "quick": [leg("rel", 16), leg("dbg", 16), leg("miri", 8, "raw_exh", of=512, budget=600)],
-        "thorough": [leg("rel", 16), leg("dbg", 16), leg("rel-nobmi", 8), leg("miri", 12, "raw_exh", of=128, budget=4000), leg("miri", 8, "int_exh", of=128, budget=4000)],
+        "quick": [leg("rel", 16), leg("dbg", 16), leg("miri", 8, "raw_exh", of=512, budget=600),
+                   leg("fuzz", 3, "raw", runs=15000), leg("fuzz", 3, "int", runs=15000)],
+        "thorough": [leg("rel", 16), leg("dbg", 16), leg("rel-nobmi", 8), leg("miri", 12, "raw_exh", of=128, budget=4000), leg("miri", 8, "int_exh", of=128, budget=4000),
+                      leg("fuzz", 8, "raw", runs=400000), leg("fuzz", 8, "int", runs=400000), leg("fuzz-dbg", 4, "raw", runs=300000), leg("fuzz-dbg", 4, "int", runs=300000)],
     },
     "require": {
         "quick": [("probe", "tail_cleared", 1), ("probe", "write_int_straddle", 1), ("build", "dbg", "overflow_checks", True)],
@@ -133,7 +140,7 @@ PLANS["C02"] = {
         "thorough": [leg("rel", 16), leg("dbg", 16), leg("rel-nobmi", 16), leg("miri", 12, "small", of=128, budget=20000), leg("miri-wrap", 12, "widths", of=12, scale=60, budget=15000)],
     },
     "require": {
-        "quick": [("set_size", "sparse_low_width", 63), ("probe", "sparse_fzr_binary", 1), ("probe", "sparse_fzr_linear", 1), ("counter", "widths.on_target", 63)],
+        "quick": [("set_size", "sparse_low_width", 63), ("probe", "sparse_fzr_binary", 1), ("probe", "sparse_fzr_linear", 1), ("counter", "widths.on_target", 63), ("counter", "wide.one_side_cases", 1), ("counter", "wide.zero_side_cases", 1)],
     },
     "level_text": ("exploration: the real SparseVector is built through every builder route and queried while a sorted-list model (binary search, cross-checked against a Vec<bool> model) checks every answer; "
                    "the generator is steered so that every low width 1..=63 and both phases of select_zero are reached, which the run proves from the serialized width field and probes"),
@@ -193,7 +200,7 @@ PLANS["C04"] = {
         "quick": [leg("rel", 16), leg("dbg", 16), leg("miri", 6, "small", of=512, budget=3000)],
         "thorough": [leg("rel", 16), leg("dbg", 16), leg("rel-nobmi", 16), leg("miri", 12, "small", of=128, budget=20000)],
     },
-    "require": {"quick": [], "thorough": []},
+    "require": {"quick": [("counter", "big.model_long_superblocks_first_level_ones", 2), ("counter", "big.model_long_superblocks_first_level_zeros", 2)], "thorough": [("counter", "big.model_long_superblocks_first_level_ones", 2), ("counter", "big.model_long_superblocks_first_level_zeros", 2)]},
     "level_text": ("exploration: wavelet matrices built from exhaustive small vectors and shaped generated vectors are queried through every Vector/Access/VectorIndex method and the core mapping while a plain "
                    "Vec<u64> model (filters and a stable sort by reversed bits) checks every answer"),
     "level_note": "trusts the Vec<u64> model; values and indices on long vectors are sampled",
@@ -227,8 +234,10 @@ PLANS["C10"] = {
              "(forward-only types: the 5 forward calls); (b) random histories of up to 300 calls incl. len and clone on instances with set bits 0..5 words apart; after every call: returned item and len() vs a "
              "VecDeque model, then the rest is drained and three more calls must return None; distinct = digest of (iterator type, start, call sequence prefix) for random histories, (pattern) for the exhaustive part"),
     "legs": {
-        "quick": [leg("rel", 16, "exh", weight=3), leg("rel", 16, "rand"), leg("dbg", 16, "rand"), leg("rel-nobmi", 8, "rand"), leg("miri-wrap", 8, "exh", of=127, scale=2, budget=4000)],
-        "thorough": [leg("rel", 16, "exh", weight=3), leg("dbg", 16, "exh", scale=1), leg("rel", 16, "rand"), leg("dbg", 16, "rand"), leg("rel-nobmi", 16, "rand"), leg("miri-wrap", 16, "exh", of=127, scale=2, budget=30000)],
+        "quick": [leg("rel", 16, "exh", weight=3), leg("rel", 16, "rand"), leg("dbg", 16, "rand"), leg("rel-nobmi", 8, "rand"), leg("miri-wrap", 8, "exh", of=127, scale=2, budget=4000),
+                   leg("fuzz", 4, "rand", runs=1200)],
+        "thorough": [leg("rel", 16, "exh", weight=3), leg("dbg", 16, "exh", scale=1), leg("rel", 16, "rand"), leg("dbg", 16, "rand"), leg("rel-nobmi", 16, "rand"), leg("miri-wrap", 16, "exh", of=127, scale=2, budget=30000),
+                      leg("fuzz", 12, "rand", runs=40000), leg("fuzz-dbg", 4, "rand", runs=40000)],
     },
     "require": {"quick": [("probe", "one_iter_next_skip", 1), ("probe", "one_iter_nth_skip", 1), ("probe", "one_iter_back_skip", 1)]},
     "exhaustive": True,
@@ -264,8 +273,10 @@ PLANS["C16"] = {
              "universes up to usize::MAX, start+len near usize::MAX; all observables are compared with a small state machine after EVERY call (unchanged across a refusal, exact after an acceptance), "
              "and the converted vector with the accepted positions; distinct = digest of the call sequence"),
     "legs": {
-        "quick": [leg("rel", 16, weight=3), leg("dbg", 16, "sparse_rand"), leg("dbg", 16, "rl_rand"), leg("dbg", 16, "rl_exh"), leg("miri", 6, "rl_exh", of=4000, budget=2500), leg("miri", 6, "sparse_exh", of=40000, budget=2500)],
-        "thorough": [leg("rel", 16, weight=3), leg("dbg", 16, "sparse_rand"), leg("dbg", 16, "rl_rand"), leg("dbg", 16, "rl_exh"), leg("miri", 12, "rl_exh", of=40000, budget=15000), leg("miri", 12, "sparse_exh", of=400000, budget=15000)],
+        "quick": [leg("rel", 16, weight=3), leg("dbg", 16, "sparse_rand"), leg("dbg", 16, "rl_rand"), leg("dbg", 16, "rl_exh"), leg("miri", 6, "rl_exh", of=4000, budget=2500), leg("miri", 6, "sparse_exh", of=40000, budget=2500),
+                   leg("fuzz", 3, "sparse_rand", runs=3000), leg("fuzz", 3, "rl_rand", runs=1500)],
+        "thorough": [leg("rel", 16, weight=3), leg("dbg", 16, "sparse_rand"), leg("dbg", 16, "rl_rand"), leg("dbg", 16, "rl_exh"), leg("miri", 12, "rl_exh", of=40000, budget=15000), leg("miri", 12, "sparse_exh", of=400000, budget=15000),
+                      leg("fuzz", 8, "sparse_rand", runs=60000), leg("fuzz", 8, "rl_rand", runs=30000), leg("fuzz-dbg", 4, "sparse_rand", runs=60000), leg("fuzz-dbg", 4, "rl_rand", runs=30000)],
     },
     "require": {"quick": [], "thorough": []},
     "exhaustive": True,
@@ -449,14 +460,16 @@ PLANS["C08"] = {
         "quick": [leg("rel", 8), leg("dbg", 8), leg("rel-nobmi", 4), leg("dbg-nobmi", 4), leg("bounds", 8), leg("asan", 8), leg("valgrind", 8, scale=8),
                   leg("miri", 5, "raw", of=4000, budget=1500), leg("miri-wrap", 5, "bv", of=4000, budget=1500), leg("miri-wrap", 3, "sparse", of=4000, budget=1200), leg("miri-wrap", 3, "rl", of=4000, budget=800),
                   leg("miri", 2, "wm", of=3000, budget=1200), leg("miri-native", 2, "bv", of=4000, budget=1200),
-                  leg("asan", 4, driver="c10", part="rand"), leg("asan", 4, driver="c01", part="boundary"), leg("asan", 2, driver="c09"), leg("bounds", 4, driver="c10", part="rand"), leg("bounds", 4, driver="c01", part="regime")],
+                  leg("asan", 4, driver="c10", part="rand"), leg("asan", 4, driver="c01", part="boundary"), leg("asan", 2, driver="c09"), leg("bounds", 4, driver="c10", part="rand"), leg("bounds", 4, driver="c01", part="regime"),
+                   leg("fuzz", 2, "raw", runs=15000), leg("fuzz", 2, "bv", runs=15000), leg("fuzz", 2, "sparse", runs=15000), leg("fuzz", 2, "rl", runs=15000), leg("fuzz", 2, "wm", runs=15000)],
         "thorough": [leg("rel", 16), leg("dbg", 16), leg("rel-nobmi", 16), leg("dbg-nobmi", 16), leg("bounds", 16), leg("asan", 16), leg("valgrind", 16, scale=4),
                      leg("miri", 8, "raw", of=40000, budget=10000), leg("miri-wrap", 8, "bv", of=40000, budget=10000), leg("miri-wrap", 6, "sparse", of=40000, budget=8000), leg("miri-wrap", 6, "rl", of=40000, budget=8000),
                      leg("miri", 4, "wm", of=30000, budget=8000), leg("miri-native", 4, "bv", of=40000, budget=8000), leg("miri-native", 4, "sparse", of=40000, budget=8000),
                      leg("asan", 8, driver="c10", part="rand"), leg("asan", 8, driver="c10", part="exh", scale=2), leg("asan", 8, driver="c01"), leg("asan", 8, driver="c02"), leg("asan", 8, driver="c03"),
                      leg("asan", 4, driver="c04"), leg("asan", 4, driver="c05"), leg("asan", 4, driver="c09"), leg("asan", 4, driver="c15"), leg("asan", 4, driver="c19"),
                      leg("bounds", 8, driver="c10", part="rand"), leg("bounds", 8, driver="c01"), leg("bounds", 8, driver="c02"), leg("bounds", 8, driver="c03"), leg("bounds", 4, driver="c09"),
-                     leg("valgrind", 8, driver="c09", scale=8), leg("valgrind", 8, driver="c10", part="rand", scale=8)],
+                     leg("valgrind", 8, driver="c09", scale=8), leg("valgrind", 8, driver="c10", part="rand", scale=8),
+                      leg("fuzz", 4, "raw", runs=300000), leg("fuzz", 4, "bv", runs=300000), leg("fuzz", 4, "sparse", runs=300000), leg("fuzz", 4, "rl", runs=300000), leg("fuzz", 4, "wm", runs=300000)],
     },
     "require": {"quick": [("counter", "coverage.methods", 100), ("counter", "calls_panicked", 100), ("build", "bounds", "bounds", True), ("build", "rel", "overflow_checks", False),
                           ("build", "dbg", "overflow_checks", True), ("build", "rel-nobmi", "bmi2", False), ("build", "miri", "miri", True), ("build", "miri-wrap", "overflow_checks", False), ("probe", "mmap_new", 10)]},
